@@ -347,6 +347,117 @@ def check_arbphase(spec):
     return []
 
 
+
+# ---- waveform / pulse objects under histories of accesses --------------------------------------------------------------
+# A waveform is a value: every history of <= DEPTH steps (uses of the public API, and the caller editing what it owns - its
+# constructor arguments and the arrays the accessors handed out) on ONE object must leave it indistinguishable from a
+# pristine object built from copies of the original arguments.
+W_OBJS = ["custom", "interp", "interp-times", "composite", "blackman", "ramp"]
+W_OPS = ["edit-input", "samples-edit", "integral", "modulated-edit", "slice-edit", "scale", "negate", "change-duration", "eq-hash-repr",
+         "in-pulse"]
+
+
+def whist_cases(tier):
+    depth = 3 if tier == "quick" else 4
+    out = []
+    for obj in W_OBJS:
+        for d in range(1, depth + 1):
+            for h in itertools.product(range(len(W_OPS)), repeat=d):
+                out.append(("whist", obj, h))
+    return out
+
+
+def _w_build(obj, args):
+    from pulser.waveforms import BlackmanWaveform, CompositeWaveform, ConstantWaveform, CustomWaveform, InterpolatedWaveform, RampWaveform
+
+    if obj == "custom":
+        return CustomWaveform(args["buf"])
+    if obj == "interp":
+        return InterpolatedWaveform(40, args["vals"])
+    if obj == "interp-times":
+        return InterpolatedWaveform(40, args["vals"], times=args["times"])
+    if obj == "composite":
+        return CompositeWaveform(CustomWaveform(args["buf"]), ConstantWaveform(10, 2.0))
+    if obj == "blackman":
+        return BlackmanWaveform(40, 1.5)
+    return RampWaveform(40, -1.0, 3.0)
+
+
+def _w_args():
+    return {"buf": np.array([0.0, 1.0, -2.0, 3.0, 0.5, 0.25, 4.0, -1.0] * 2), "vals": np.array([0.0, 1.0, -0.5, 0.25]),
+            "times": np.array([0.0, 0.2, 0.7, 1.0])}
+
+
+def _w_facts(wf):
+    s = S(wf)
+    return dict(samples=tuple(np.round(s, 12).tolist()), duration=wf.duration, integral=round(float(wf.integral), 12),
+                first=round(float(wf.first_value), 12), last=round(float(wf.last_value), 12))
+
+
+def check_whist(obj, h):
+    from pulser import Pulse
+    from pulser.channels import Rydberg
+
+    ch = Rydberg.Global(None, None, mod_bandwidth=8.0, max_duration=None)
+    ref = _w_build(obj, _w_args())
+    want = _w_facts(ref)
+    args = _w_args()
+    wf = _w_build(obj, args)
+    names = [W_OPS[i] for i in h]
+    out = []
+    for k, name in enumerate(names):
+        try:
+            if name == "edit-input":
+                args["buf"][1] += 50.0
+                args["vals"][1] += 9.0
+                args["times"][1] = 0.5
+            elif name == "samples-edit":
+                x = wf.samples
+                np.asarray(x.as_array() if hasattr(x, "as_array") else x)[...] = 7.0
+            elif name == "integral":
+                wf.integral
+            elif name == "modulated-edit":
+                x = wf.modulated_samples(ch)
+                np.asarray(x.as_array() if hasattr(x, "as_array") else x)[...] = 7.0
+            elif name == "slice-edit":
+                # reading only: whether wf[a:b] is a view of the samples is not promised either way (numpy slicing semantics)
+                x = wf[1:5]
+                float(np.sum(np.asarray(x.as_array() if hasattr(x, "as_array") else x)))
+            elif name == "scale":
+                wf * 2.0
+                wf / 4.0
+            elif name == "negate":
+                -wf
+            elif name == "change-duration":
+                try:
+                    wf.change_duration(wf.duration + 4)
+                except NotImplementedError:
+                    pass
+            elif name == "eq-hash-repr":
+                wf == ref
+                hash(wf)
+                repr(wf)
+                str(wf)
+            elif name == "in-pulse":
+                p = Pulse.ConstantDetuning(wf, 0.0, 0.0) if np.all(S(wf) >= 0) else Pulse.ConstantAmplitude(1.0, wf, 0.0)
+                p.fall_time(ch)
+                x = p.amplitude.samples
+                np.asarray(x.as_array() if hasattr(x, "as_array") else x)[...] = 3.0
+        except Exception as e:
+            out.append((f"C16:object-history:step-raises:{obj}:{name}:{type(e).__name__}", f"after {names[:k]}: {e}"[:200]))
+            break
+        got = _w_facts(wf)
+        bad = sorted(f for f in want if got[f] != want[f])
+        if not (wf == ref and ref == wf) and not bad:
+            bad = ["equality"]
+        if bad:
+            edited = "after-editing-own-argument:" if "edit-input" in names[: k + 1] else ""
+            out.append((f"C16:object-history:{obj}:{'+'.join(bad)}:{edited}at:{name}",
+                        f"{obj} waveform after {names[: k + 1]} differs from a pristine one in {bad}: samples {got['samples'][:4]} vs {want['samples'][:4]}"))
+            break
+    return out + [("@whist", "")]
+
+
 def worker(case):
     with warnings.catch_warnings():
         warnings.simplefilter("ignore")
@@ -354,6 +465,8 @@ def worker(case):
         k = case[0]
         if k == "wf":
             return check_wf(case[1])
+        if k == "whist":
+            return check_whist(case[1], tuple(case[2]))
         if k == "maxval":
             return check_maxval(*case[1:])
         if k == "maxval-boundary":
@@ -369,8 +482,8 @@ def worker(case):
 
 def run(tier, seed):
     res = Result("exploration")
-    cs = cases(tier)
-    outs = gridx.run(worker, cs)
+    cs = cases(tier) + whist_cases(tier)
+    outs = gridx.run(worker, cs, chunksize=16)
     classes = {}
     for case, r in zip(cs, outs):
         for fp, d in r:
